@@ -99,6 +99,31 @@ def check_one(ctx, tree, text, meta):
     got = ref_sgml.from_etree(root)
     if got != tree or ref_sgml.tails(root):
         ctx.violation(f"{classify(text)}", f"tree differs for {text[:200]!r}: got {str(got)[:200]} want {str(tree)[:200]}", case)
+        return
+    # the same body as a FILE, read by a file parser object that has read other files before (one OFXTree working through a batch)
+    if (ctx.replay_case is None and ctx.rng.random() < 0.05) or (ctx.replay_case is not None and meta.get("via") == "reused-file-parser"):
+        import io
+
+        global _BATCH
+        if _BATCH is None:
+            from ofxtools.Parser import OFXTree
+
+            _BATCH = OFXTree()
+            _BATCH.parse(io.BytesIO((hostile_history.V2 + "<OFX><A>1</A></OFX>").encode("utf_8")))
+        ctx.ev()
+        ctx.count("read_as_file_by_reused_parser")
+        case = {"text": text, "tree": tree_json(tree), "meta": dict(meta, via="reused-file-parser")}
+        try:
+            _BATCH.parse(io.BytesIO((hostile_history.V2 + text).encode("utf_8")))
+            got = ref_sgml.from_etree(_BATCH.getroot())
+        except Exception as e:
+            ctx.violation(f"reused-file-parser/raises-{type(e).__name__}", f"an OFXTree that has parsed files before raised {e!r} on well-formed {text[:200]!r}", case)
+            return
+        if got != tree:
+            ctx.violation("reused-file-parser/tree-differs", f"tree differs for {text[:200]!r}: got {str(got)[:200]} want {str(tree)[:200]}", case)
+
+
+_BATCH = None
 
 
 def tree_json(t):
